@@ -403,7 +403,8 @@ class Oracle:
         h = (self.ts[k + 1] - self.ts[k]) / self.spec.M
         d["x"] = xk[k][l]
         d["t"] = self.ts[k] + l * h if l else self.ts[k]
-        d["z"] = None
+        zk = getattr(self, "zk", None)
+        d["z"] = zk[k][l] if zk else None
         d["xq"] = None
         return d
 
@@ -464,14 +465,31 @@ class Oracle:
         Q = [list(q)]
         xk = []
         self.roots = {}
+        # algebraic variables exist at the collocation times only; their value at a grid point is the value there of the
+        # polynomial through the collocation-time values of the step that STARTS at that point (the final node: of the
+        # last step, at its end).  Lagrange weights on tau_1..tau_d at 0 and at 1, in the back end's own arithmetic.
+        tau_dm = [ca.DM(t) for t in m.tau]
+        def lag_w(at):
+            w = []
+            for r in range(d):
+                v = ca.DM(1)
+                for q_ in range(d):
+                    if q_ != r:
+                        v = v * ((at - tau_dm[q_]) / (tau_dm[r] - tau_dm[q_]))
+                w.append(v)
+            return w
+        w0, w1 = lag_w(ca.DM(0)), lag_w(ca.DM(1))
+        zk = []
         for k in range(N):
             dt = (self.ts[k + 1] - self.ts[k]) / M
             base = self.env.base(k)
             xs = []
+            zs_k = []
             for i in range(M):
                 Xc = ca.MX(m.Xc[k][i])          # [start | helper states]
                 Zc = ca.MX(m.Zc[k][i])
                 xs.append(Xc[:, 0])
+                zs_k.append(sum((Zc[:, r] * w0[r] for r in range(d)), ca.MX.zeros(nz, 1)) if nz else None)
                 t_start = self.ts[k] + i * dt if i else self.ts[k]
                 for j in range(d):
                     # derivative of the interpolating polynomial at tau_j (per unit physical time)
@@ -498,14 +516,19 @@ class Oracle:
                 self.add(("continuity", k, i), "eq", Pend - x_next, scale_x)
             xs.append(X[k + 1])
             xk.append(xs)
+            zk.append(zs_k)
             Q.append(list(q))
-        self.X, self.xk = X, xk
+        self.X, self.xk, self.zk = X, xk, zk
         Qv = [ca.vcat(qq) if qq else 0 for qq in Q]
+        Zn = None
+        if nz:
+            ZcL = ca.MX(m.Zc[N - 1][M - 1])
+            Zn = [zk[k][0] for k in range(N)] + [sum((ZcL[:, r] * w1[r] for r in range(d)), ca.MX.zeros(nz, 1))]
 
         def node_env(j):
             if not 0 <= j <= N:
                 raise IndexError(j)
-            return self.env.node(j, X, xq=None)
+            return self.env.node(j, X, zs=Zn, xq=None)
 
         self.node_env = node_env
         self.path_rows_dc(node_env, xk)
